@@ -53,6 +53,7 @@ type waitRun struct {
 	prepEnd  time.Time
 	cancel   func()
 	cancelAt time.Time
+	visitEnds []time.Time
 }
 
 func (n *waitNode) Prep(ctx context.Context, s *flyt.SharedStore) (any, error) {
@@ -178,6 +179,31 @@ func runWaitCase(cs *WaitCase) (*waitObs, []finding) {
 			nb = nb.WithExecFallbackFunc(func(any, error) (any, error) { return "rescued", nil })
 		}
 		node = nb
+	case "flow-self-loop":
+		// a node with a wait configured and a budget > 1 whose first attempt always succeeds, visited cs.Items times through a
+		// self-loop: every visit is a fresh run of the node — no wait before its first attempt, so no wait at all
+		visits := 0
+		nb := flyt.NewNode().WithMaxRetries(cs.N).WithWait(wait).
+			WithPrepFuncAny(func(ctx context.Context, s *flyt.SharedStore) (any, error) {
+				if visits == 0 {
+					w.prepEnd = time.Now()
+				}
+				return 0, nil
+			}).
+			WithExecFuncAny(func(ctx context.Context, v any) (any, error) { return w.exec(ctx, 0) }).
+			WithPostFuncAny(func(ctx context.Context, s *flyt.SharedStore, p, e any) (flyt.Action, error) {
+				visits++
+				w.mu.Lock()
+				w.visitEnds = append(w.visitEnds, time.Now())
+				w.mu.Unlock()
+				if visits < cs.Items {
+					return "again", nil
+				}
+				return "done", nil
+			})
+		f := flyt.NewFlow(nb)
+		f.Connect(nb, "again", nb)
+		node = f
 	case "batch":
 		var bo []any
 		if cs.FB {
@@ -256,7 +282,7 @@ func runWaitCase(cs *WaitCase) (*waitObs, []finding) {
 	for item, st := range w.starts {
 		en := w.ends[item]
 		o.Attempts += len(st)
-		for j := 1; j < len(st); j++ {
+		for j := 1; j < len(st) && cs.Kind != "flow-self-loop"; j++ {
 			gap := st[j].Sub(en[j-1])
 			o.Gaps = append(o.Gaps, int64(gap))
 			if o.MinGapNs < 0 || int64(gap) < o.MinGapNs {
@@ -271,6 +297,16 @@ func runWaitCase(cs *WaitCase) (*waitObs, []finding) {
 		o.BeforeFirst = int64(st[0].Sub(w.prepEnd))
 		en := w.ends[0]
 		o.AfterLast = int64(ret.Sub(en[len(en)-1]))
+	}
+	if cs.Kind == "flow-self-loop" {
+		st := w.starts[0]
+		o.BeforeFirst, o.AfterLast = 0, 0
+		for v := 1; v < len(st) && v-1 < len(w.visitEnds); v++ {
+			if g := int64(st[v].Sub(w.visitEnds[v-1])); g > o.BeforeFirst {
+				o.BeforeFirst = g // time between the end of a visit and the first attempt of the next visit of the same node
+			}
+		}
+		o.Gaps = nil
 	}
 	if cs.Kind == "batch" && cs.Upper {
 		// sequential batch: first item's first attempt right after prep; return right after the last attempt of the last item
@@ -388,6 +424,15 @@ func runC20(c *Cfg) {
 			// budget 1 with an hour-long wait configured: nothing ever waits
 			cases = append(cases, &WaitCase{Family: "no-retries-hour-wait", Kind: kind, WaitNs: int64(time.Hour), N: 1, K: 1, K0: 2, Items: 3})
 		}
+	}
+	// a node revisited through a flow self-loop: every visit starts with a first attempt, which is never preceded by a wait
+	for _, nn := range []int{2, 3} {
+		cases = append(cases, &WaitCase{Family: "upper", Kind: "flow-self-loop", WaitNs: int64(300 * time.Millisecond), N: nn, K: 1, Upper: true, Items: 4})
+	}
+	// interruptibility with more items than workers and queue can hold: the submitter is blocked when the cancellation comes
+	for _, in := range []bool{false, true} {
+		cases = append(cases, &WaitCase{Family: "interrupt-saturated", Kind: "batch", WaitNs: int64(time.Hour), N: 3, K: 4, Cancel: 1, InCB: in, C: 2, Items: 12})
+		cases = append(cases, &WaitCase{Family: "interrupt-saturated", Kind: "batch", WaitNs: int64(time.Hour), N: 2, K: 3, Cancel: 1, InCB: in, C: 1, Items: 7, Stop: true})
 	}
 	// interruptibility: 1-hour wait, cancelled after the first attempt (later attempt indices cannot be reached
 	// through an hour-long wait), from a helper goroutine 20 ms later and from inside the callback
